@@ -80,10 +80,15 @@ def main():
     rc, out = sh("git -C /repo apply %s" % patch)
     assert rc == 0, out
     t = time.time()
+    # the evidence file of a run against a changed tree must not replace the one from the unchanged tree
+    ev = os.path.join(VERIF, "evidence", prop + ".json")
+    ev_saved = open(ev).read() if os.path.exists(ev) else None
     try:
         crc, cout = sh("./check %s %s" % (prop, tier), cwd=VERIF, timeout=3000)
     finally:
         sh("git -C /repo checkout -- .")
+        if ev_saved is not None:
+            open(ev, "w").write(ev_saved)
     wall = time.time() - t
     viol = [l for l in cout.split("\n") if l.startswith("VIOLATION")]
     ran.append("./check %s %s with the change applied to /repo -> exit %d in %.0fs; %s" % (prop, tier, crc, wall, "; ".join(viol[:3])))
